@@ -135,7 +135,7 @@ def run(sc, external, env_extra=None):
         return EvaluatorResult(objectives=obj, constraints=con)
 
     old_env = {k: os.environ.get(k) for k in ("PATH", "RV_KILL_AFTER", "RV_EXIT_AFTER", "RV_CHILD_ERROR_AFTER", "RV_CHILD_ERROR_EMPTY", "RV_TERM_AFTER_READ")}
-    os.environ["PATH"] = BIN + ":/venv/bin:" + old_env["PATH"]
+    os.environ["PATH"] = (BIN + "2" if sc.get("launcher") else BIN) + ":/venv/bin:" + old_env["PATH"]
     for k, v in (env_extra or {}).items():
         os.environ[k] = str(v)
     plan = Plan(OptimizerContext(evaluator=evaluator))
@@ -239,6 +239,8 @@ def extra_scenarios(tier, seed):
         pairs += [{"method": "nelder-mead", "maxfun": 2, "padto": 65536 + k} for k in (3, 8)]
         pairs += [{"method": "slsqp", "maxfun": 4, "restart": True}, {"method": "slsqp", "maxfun": 6, "nanAt": 2, "restart": True},
                   {"method": "slsqp", "maxfun": 3, "emptylin": True},
+                  # the command found on PATH is a launcher script that runs the real runner as its child
+                  {"method": "slsqp", "maxfun": 4, "launcher": True},
                   # the back-end named with its plug-in: "external/scipy/slsqp" next to "scipy/slsqp"
                   {"method": "scipy/slsqp", "maxfun": 4}, {"method": "SciPy/Nelder-Mead", "maxfun": 3}]
         kills = (-1, 1, 3, 4)
@@ -259,7 +261,8 @@ def extra_scenarios(tier, seed):
         pairs += [{"method": "slsqp", "maxfun": 4, "restart": True}, {"method": "slsqp", "maxfun": 6, "nanAt": 2, "restart": True},
                   {"method": "nelder-mead", "maxfun": 3, "restart": True}, {"method": "cobyla", "maxfun": 5, "con": True, "restart": True},
                   {"method": "slsqp", "maxfun": 3, "emptylin": True},
-                  {"method": "scipy/slsqp", "maxfun": 4}, {"method": "SciPy/Nelder-Mead", "maxfun": 3}, {"method": "scipy/default", "maxfun": 4}]
+                  {"method": "scipy/slsqp", "maxfun": 4}, {"method": "SciPy/Nelder-Mead", "maxfun": 3}, {"method": "scipy/default", "maxfun": 4},
+                  {"method": "slsqp", "maxfun": 4, "launcher": True}, {"method": "cobyla", "maxfun": 4, "launcher": True}]
     for m in methods:
         for k in kills:
             out.append({"kind": "fault", "fault": "kill", "after": k, "method": m, "maxfun": 12})
